@@ -4,12 +4,16 @@
    expressions, the forwarding of noalias), Expr.v with array-element leaves (value and gradient index found at
    loc[array number]), ArrayStmt.v (hand model of the element loop of an active array assignment; tie H: ./check C03
    compares the Jacobian of generated element-wise statements with the extracted model).
-   _partial: reductions, integer-vector indexing, where / either_or, spread, outer_product, dot_product, fixed-size
+   Reductions to a scalar: Gen_Reduce.v (tie G: tools/gen_reduce.py recognises first_value / accumulate_active /
+   finish_active / active_finish_needed / extra_element_cost of the six policy classes, the three
+   next_value_and_gradient variants and the skeleton of reduce_active), Reduce.v (the statements recorded and the
+   scalar loop they denote).
+   _partial: reductions along one dimension, integer-vector indexing, where / either_or, spread, outer_product, dot_product, fixed-size
    targets and rank > 1 traversal are not in the model; for those the check compares every array statement of its
    catalogue directly with the scalar program it denotes (full Jacobians), which is a test, not a theorem. *)
 From Coq Require Import ZArith List Ring_theory.
-From Adept Require Import Scalar ExprDefs Expr ExprProofs Tape TapeAdjoint Program ProgramProofs ArrayStmt ArrayStmtProofs.
-From AdeptGen Require Import Gen_Ops.
+From Adept Require Import Scalar ExprDefs Expr ExprProofs Tape TapeAdjoint Program ProgramProofs ArrayStmt ArrayStmtProofs ReduceDefs Reduce ReduceProofs.
+From AdeptGen Require Import Gen_Ops Gen_Reduce.
 Import ListNotations.
 
 Section AnyRing.
@@ -39,10 +43,41 @@ Theorem C03_reverse_partial : forall N tb ts n (e : aexp (T:=T)) vals0 y x,
   Forall (wf_stmt N) (snd (aexec F tb ts n e vals0)) -> (y < N)%nat -> (x < N)%nat ->
   rev_sweep O (snd (aexec F tb ts n e vals0)) (unit_vec O y) x = snd (dexec F (denoted tb ts n e) vals0 (unit_vec O x)) y.
 Proof. exact (areverse F Rth Hdiv Hlit1 eqb_true). Qed.
+
+(* sum, mean, product, maxval, minval, norm2 of an active array expression (elements es, any number, any expression
+   trees) into an active scalar with gradient index t that no element reads: the value is that of the scalar loop,
+   the forward sweep of the recorded statements changes the seed vector at t only, to the tangent of the scalar loop
+   (dual-number evaluation: total += x; total *= x; if (x > total) total = x; total += x*x ... sqrt; /n), and no
+   operation is left pending.  minf / pinf / ofnat: -inf, +inf and the element count as scalars. *)
+Theorem C03_reductions : forall (minf pinf : T) (ofnat : nat -> T) t u0 k (es : list (expr (T:=T))),
+  Forall (fresh t) es ->
+  let st := reduce_active F minf pinf ofnat t k es in
+  let s := reduce_spec F minf pinf ofnat (reduce_policy k) (xs_of F u0 es) in
+  r_total st = fst s /\ r_pending st = [] /\ forall i, fwd_sweep O (r_tape st) u0 i = upd u0 t (snd s) i.
+Proof.
+  intros minf pinf ofnat t u0 k es Hf.
+  exact (reduce_run_correct F minf pinf ofnat Rth Hdiv Hlit1 t u0 (reduce_policy k) es (generated_policies_wf k) Hf).
+Qed.
 End AnyRing.
 Print Assumptions C03_element_partial.
 Print Assumptions C03_elementwise_statement_partial.
 Print Assumptions C03_reverse_partial.
+
+Print Assumptions C03_reductions.
+
+(* the generated reduction policies: operations left pending by the accumulation are closed by a finish that is
+   actually called (active_finish_needed), and extra_element_cost covers what the accumulation pushes beyond the
+   element's own operations; with that, the operations pushed inside the element loop fit the single reservation
+   (n_active + extra_element_cost) * n that reduce_active makes before it (shared with C09) *)
+Theorem C03_reduction_policies : forall k,
+  policy_wf (reduce_policy k) = true /\ (acc_extra (rp_acc (reduce_policy k)) <= rp_extra (reduce_policy k))%Z.
+Proof. intros k. exact (conj (generated_policies_wf k) (generated_extra_cost k)). Qed.
+Print Assumptions C03_reduction_policies.
+Theorem C03_reduction_reservation : forall (T : Type) (F : FOps T) (minf pinf : T) t k (es : list (expr (T:=T))) na,
+  Forall (fun e : expr (T:=T) => (n_active e <= na)%Z) es ->
+  (Z.of_nat (ops_in_loop F minf pinf t (reduce_policy k) es) <= reduce_reservation na (rp_extra (reduce_policy k)) (Z.of_nat (length es)))%Z.
+Proof. intros T F minf pinf t k es na. exact (loop_within_reservation F minf pinf t (reduce_policy k) es na (generated_extra_cost k)). Qed.
+Print Assumptions C03_reduction_reservation.
 
 (* the array-number arithmetic of every policy is the canonical one (a slip such as MyArrayNum for
    MyArrayNum+L::n_arrays breaks this), and noalias forwards unchanged numbers *)
@@ -62,3 +97,18 @@ Example C03_example :
   rev_sweep ZOps (snd (aexec ZF3 9 1 3 e vals0)) (unit_vec ZOps 10) 1%nat = (6 * 9)%Z /\
   rev_sweep ZOps (snd (aexec ZF3 9 1 3 e vals0)) (unit_vec ZOps 10) 5%nat = 0%Z.
 Proof. vm_compute. repeat split. Qed.
+
+(* non-vacuity for the reductions, over the integers: elements x0*x1, x1, x2+x0 at (2,3,5) into variable 7, seeds (1,10,100):
+   sum = 6+3+7 with tangent (3*1+2*10) + 10 + (100+1); product = 6*3*7 with tangent by the product rule *)
+Example C03_example_reductions :
+  let es := [XBin KMul (XAct 0%Z 2%Z) (XAct 1%Z 3%Z); XAct 1%Z 3%Z; XBin KAdd (XAct 2%Z 5%Z) (XAct 0%Z 2%Z)] in
+  let u0 := fun i : nat => match i with O => 1 | S O => 10 | S (S O) => 100 | _ => 55 end%Z in
+  Forall (fresh 7) es /\
+  r_total (reduce_active ZF3 (-1000)%Z 1000%Z Z.of_nat 7 RSum es) = 16%Z /\
+  fwd_sweep ZOps (r_tape (reduce_active ZF3 (-1000)%Z 1000%Z Z.of_nat 7 RSum es)) u0 7%nat = 134%Z /\
+  r_total (reduce_active ZF3 (-1000)%Z 1000%Z Z.of_nat 7 RProduct es) = 126%Z /\
+  fwd_sweep ZOps (r_tape (reduce_active ZF3 (-1000)%Z 1000%Z Z.of_nat 7 RProduct es)) u0 7%nat = (23 * 3 * 7 + 6 * 10 * 7 + 6 * 3 * 101)%Z /\
+  r_total (reduce_active ZF3 (-1000)%Z 1000%Z Z.of_nat 7 RMaxVal es) = 7%Z /\
+  fwd_sweep ZOps (r_tape (reduce_active ZF3 (-1000)%Z 1000%Z Z.of_nat 7 RMaxVal es)) u0 7%nat = 101%Z /\
+  fwd_sweep ZOps (r_tape (reduce_active ZF3 (-1000)%Z 1000%Z Z.of_nat 7 RMaxVal es)) u0 3%nat = 55%Z.
+Proof. vm_compute. repeat split; repeat constructor; discriminate. Qed.
